@@ -105,8 +105,11 @@ Proof. vm_compute. auto. Qed.
    keeps the multiples of 2^(log_gap_in - 1), so the table entry of the other gadget row survives in the row *)
 Lemma cbt_exponent_trace_path_refuted :
   log_gap_in 8 2 1 = 7 /\ cbt_rows_ok 8 13 2 true 1 7 0 = false /\ cbt_rows_ok 8 13 2 true 1 7 1 = false /\
-  (exists q, cb_row 8 13 2 true 1 7 0 1 = Some q /\ row_decoded 13 2 1 q 0 = 1 /\ row_decoded 13 2 1 q 192 = - 8192).
-Proof. vm_compute. repeat split; auto. eexists; split; [reflexivity|]. vm_compute. auto. Qed.
+  match cb_row 8 13 2 true 1 7 0 1 with
+  | Some q => (row_decoded 13 2 1 q 0 =? 1) && (row_decoded 13 2 1 q 192 =? - 8192)
+  | None => false
+  end = true.
+Proof. vm_compute. auto. Qed.
 
 (* what the repair (trace from log_n - log_gap_in instead of log_n - log_gap_in + 1) would give: see
    work/proposed_fixes/C15_cbt_exponent_trace.diff *)
